@@ -70,6 +70,19 @@ def check(run):
     run.ob("R18.1", loc(ld, ld.node), ld.short, f"keys read {sorted(read)} == keys written {sorted(written)}", read == written,
            "writer and reader agree on the archive's key set" if read == written else
            "save and load disagree on key names: data or gradient is silently lost on a round trip")
+    for f_, pname in ((sv, file_p), (ld, lfile)):
+        uses = [n for n in own_nodes(f_.node) if isinstance(n, ast.Name) and n.id == pname and isinstance(n.ctx, ast.Load)]
+        bad = []
+        for u in uses:
+            par = getattr(u, "_parent", None)
+            if isinstance(par, ast.Call) and u in par.args and par.args.index(u) == 0 and \
+                    (fx.ext_name_of(f_, par.func) or "") in ("numpy.savez", "numpy.load", "numpy.savez_compressed"):
+                continue
+            bad.append(u)
+        stores = [n for n in own_nodes(f_.node) if isinstance(n, ast.Name) and n.id == pname and isinstance(n.ctx, ast.Store)]
+        run.ob("R18.1", loc(f_, bad[0] if bad else f_.node), f_.short, f"`{pname}` is only handed to NumPy's archive routine (never seeked, reopened or rebound)",
+               not bad and not stores, "single use as first argument of np.savez / np.load" if not bad and not stores else
+               f"`{pname}` is also used at line {(bad or stores)[0].lineno}: the position / identity of a caller-supplied file object is changed")
     # R18.2 purity of save
     stores = [n for n in own_nodes(sv.node) if isinstance(n, (ast.Assign, ast.AugAssign, ast.Delete))
               and any(isinstance(t, (ast.Attribute, ast.Subscript)) for t in (n.targets if not isinstance(n, ast.AugAssign) else [n.target]))]
